@@ -152,7 +152,7 @@ func checkC01(r *Report) {
 	p := loadResolve("", true)
 	e := runEffect(p)
 	cmpTrusted(r)
-	r.Explain = "C01.d SIGN-SYMMETRIC: a three-way comparator of package semver whose non-constant results are all delegated comparisons returns +k as a constant exactly if it returns -k (one reviewed one-sided helper). Structural clauses of 'comparison is a total preorder', decided on the call closure of semver's comparison entry points. C01.a PURE/HISTORY: (*Version).Compare, System.Compare and every sort comparator over versions are write-free (no store to memory that outlives the call, no store to a package-level variable) and read no package-level variable that anything outside package initialisation writes, so a result cannot depend on earlier calls. C01.b NO-BUILD: no function in the closure of (*Version).Compare reads the field Version.build. C01.c PROJ-SYM: every direct comparison between the two operands (operators and two-argument calls) whose operands resolve to access paths uses the same projection on both sides (copy-paste asymmetry such as sgn(p.postNum, q.preNum) is reported). Not decided: transitivity, antisymmetry and congruence over all value triples."
+	r.Explain = "C01.d NO-WIDE-SUBTRACT: no comparator or sign helper of package semver takes the sign of a difference of two wide integers (it wraps for operands more than half the range apart). C01.d SIGN-SYMMETRIC: a three-way comparator of package semver whose non-constant results are all delegated comparisons returns +k as a constant exactly if it returns -k (one reviewed one-sided helper). Structural clauses of 'comparison is a total preorder', decided on the call closure of semver's comparison entry points. C01.a PURE/HISTORY: (*Version).Compare, System.Compare and every sort comparator over versions are write-free (no store to memory that outlives the call, no store to a package-level variable) and read no package-level variable that anything outside package initialisation writes, so a result cannot depend on earlier calls. C01.b NO-BUILD: no function in the closure of (*Version).Compare reads the field Version.build. C01.c PROJ-SYM: every direct comparison between the two operands (operators and two-argument calls) whose operands resolve to access paths uses the same projection on both sides (copy-paste asymmetry such as sgn(p.postNum, q.preNum) is reported). Not decided: transitivity, antisymmetry and congruence over all value triples."
 	vcmp := p.lookupFn("(*semver.Version).Compare")
 	scmp := p.lookupFn("(semver.System).Compare")
 	if vcmp == nil || scmp == nil {
@@ -268,6 +268,7 @@ func checkC01(r *Report) {
 	r.Stats["projsym_checked"] = checked
 	r.Stats["projsym_undecided"] = undec
 	r.Stats["closure_functions"] = len(closure)
+	noWideSubtractRule(r, p, "C01.d/NO-WIDE-SUBTRACT", threeWayFns(p, "semver"))
 	mapOrderRule(r, p, "C01.d/MAP-ORDER", threeWayFns(p, "semver"))
 	nSym := signSymmetryRule(r, p, "C01.d/SIGN-SYMMETRIC", threeWayFns(p, "semver"))
 	r.floor("C01.d/SIGN-SYMMETRIC", "three-way comparators of package semver", nSym, 10)
